@@ -7,14 +7,16 @@ def typeToOrder : List (Nat × String) := [(0, ""), (1, "sing"), (2, "doub"), (3
 def orderToType : List (String × Nat) := [("sing", 1), ("doub", 2), ("trip", 3), ("quad", 4)]
 def orderMasked : List Nat := [0, 8, 9]
 def compOrderToType : List ((String × String) × Nat) := [(("SING", "N"), 1), (("DOUB", "N"), 2), (("TRIP", "N"), 3), (("QUAD", "N"), 4), (("SING", "Y"), 5), (("DOUB", "Y"), 6), (("TRIP", "Y"), 7), (("AROM", "Y"), 9)]
-def canonicalResidues : List String := ["ALA", "ARG", "ASN", "ASP", "CYS", "GLN", "GLU", "GLY", "HIS", "ILE", "LEU", "LYS", "MET", "PHE", "PRO", "PYL", "SER", "THR", "TRP", "TYR", "VAL", "SEC", "A", "DA", "G", "DG", "C", "DC", "U", "DT"]
+def canonicalAA : List String := ["ALA", "ARG", "ASN", "ASP", "CYS", "GLN", "GLU", "GLY", "HIS", "ILE", "LEU", "LYS", "MET", "PHE", "PRO", "PYL", "SER", "THR", "TRP", "TYR", "VAL", "SEC"]
+def canonicalNuc : List String := ["A", "DA", "G", "DG", "C", "DC", "U", "DT"]
 def peptideLinks : List String := ["PEPTIDE LINKING", "L-PEPTIDE LINKING", "D-PEPTIDE LINKING"]
 def nucleicLinks : List String := ["RNA LINKING", "DNA LINKING"]
 def noAltloc : List String := [".", "?", " ", ""]
 /-- `_filter_canonical_links`: shape of the returned expression, number of `&` terms, number of comparison terms, the two atom-name tuples. -/
 def canonShape : String := "and-chain"
-def canonTerms : Nat := 8
+def canonTerms : Nat := 5
 def canonCompareTerms : Nat := 4
-def canonAtomNames : List (List String) := [["C", "O3'"], ["N", "P"]]
+/-- (residue list, first atom, second atom) of `is_peptide_link` and `is_nucleotide_link` -/
+def canonKinds : List (String × String × String) := [("canonical_aa_list", "C", "N"), ("canonical_nucleotide_list", "O3'", "P")]
 def altlocUsesIsalpha : Bool := false
 end BiotiteModel.Gen.C04
